@@ -51,6 +51,7 @@ pub enum UK {
     Append { field: Option<u64>, other: Option<u64>, v1: Option<u64>, v2: Option<u64> },
     ReopenResult { slot: u64, was_none: bool },
     WaitData { slot: u64, got: Option<u64> },
+    WaitCancelled { slot: u64 },
 }
 
 #[derive(Clone, Debug)]
@@ -278,9 +279,26 @@ fn uow_main(plan: &Value, log: ULog) {
             }
             "wait_data" => {
                 if let Some(o) = owner.as_mut() {
-                    #[allow(deprecated)]
-                    let got = detsim::future::block_on(o.s1.wait_for_data()).as_ref().map(|c| c.v1);
-                    log.log(UK::WaitData { slot: 1, got });
+                    if jb(op, "cancel", false) {
+                        // fault `future_cancelled`: the wait is polled once and, if still pending,
+                        // abandoned (a timeout around wait_for_data)
+                        let mut fut = Box::pin(o.s1.wait_for_data());
+                        match detsim::future::poll_once(&mut fut) {
+                            std::task::Poll::Ready(v) => {
+                                let got = v.as_ref().map(|c| c.v1);
+                                drop(fut);
+                                log.log(UK::WaitData { slot: 1, got });
+                            }
+                            std::task::Poll::Pending => {
+                                drop(fut);
+                                log.log(UK::WaitCancelled { slot: 1 });
+                            }
+                        }
+                    } else {
+                        #[allow(deprecated)]
+                        let got = detsim::future::block_on(o.s1.wait_for_data()).as_ref().map(|c| c.v1);
+                        log.log(UK::WaitData { slot: 1, got });
+                    }
                 }
             }
             "to_handle" => {
@@ -459,6 +477,12 @@ pub fn check_c13(h: &[UEv]) -> Option<Violation> {
                 }
             }
             _ => {}
+        }
+    }
+    // the entry itself: exactly once, and not "not at all" (whatever happened to the slots)
+    if let Some(v) = check_c06(h) {
+        if matches!(v.class.as_str(), "never_appended" | "appended_twice") {
+            return Some(v);
         }
     }
     let Some((a, atid, field, other, v1, v2)) = m.appends.first().cloned() else { return None };
@@ -642,7 +666,7 @@ pub fn gen_uow(rng: &mut Rng, slots: bool) -> Value {
         if is_slot1 && slots && style != 0 && !any_overwrite && op.get("forget").is_none() && op.get("in_panic").is_none() && rng.chance(0.35) {
             // the owner waits for this guard's data before it is released: another thread must drop it
             who = rng.below(nd);
-            main_ops.insert(owner_pos, json!({"op":"wait_data"}));
+            main_ops.insert(owner_pos, json!({"op":"wait_data","cancel": rng.chance(0.35)}));
         }
         if who == nd {
             main_ops.push(op);
@@ -684,6 +708,7 @@ fn uow_report(plan: &Value, check: fn(&[UEv]) -> Option<Violation>) -> Report {
     r.fault("tokio_budget_exhausted", in_task);
     let in_panic = ja(plan, "main_ops").iter().chain(ja(plan, "droppers").iter().flat_map(|d| d.as_array().map(|a| a.iter()).into_iter().flatten())).filter(|o| jb(o, "in_panic", false)).count() as u64;
     r.fault("drop_during_unwind", in_panic);
+    r.fault("future_cancelled", h.iter().filter(|e| matches!(e.k, UK::WaitCancelled { .. })).count() as u64);
     if m.kinds.values().any(|k| k.starts_with("orphan")) {
         r.probe("slot_field_overwritten_after_open", 1);
     }
